@@ -77,6 +77,7 @@ type Scenario struct {
 	C14    *C14Payload       `json:"c14,omitempty"`
 	C12    *C12Payload       `json:"c12,omitempty"`
 	C09    *C09Payload       `json:"c09,omitempty"`
+	C04    *C04Payload       `json:"c04,omitempty"`
 }
 
 // ---- outcome ---------------------------------------------------------------
